@@ -371,7 +371,7 @@ def assign_view(E, dst, val, node):
     hook = getattr(dst.cell, "on_fill", None)
     if hook is not None:
         if dst.ndim == 1 and all(e == ("dim", 0, 0, 1) for e in dst.imap) and getattr(dst, "_full", False):
-            hook(cast(val, dst.kind), dst.cell.term)          # ghost counting: constant-fill lemma instance
+            hook(cast(val, dst.kind), dst.cell)               # ghost counting: constant-fill lemma instance
         else:
             dst.cell.on_store = dst.cell.on_fill = None       # partial fill of a tracked array: counting facts are lost
 
@@ -449,6 +449,15 @@ def arr_method(R, E, arr, name, args, kwargs, node):
             # a single column on every path that reaches this point
             col = arr.view((arr.shape[0], 1), arr.imap)
             return getitem(R, E, col, (slice(None, None, None), 0), node)
+        if arr.ndim == 2:
+            # the entries in row-major order; only the length is modelled (values unconstrained: an over-approximation,
+            # valid while the result is only read - writes through it would alias the source, so they are refused)
+            m = E.int("ravel_len")
+            a0, a1 = z(arr.shape[0]), z(arr.shape[1])
+            E.assume(z3.And(m >= 0, z3.Implies(z3.And(a0 >= 1, a1 >= 1), m >= 1), z3.Implies(z3.Or(a0 == 0, a1 == 0), m == 0)))
+            out = NdArr.fresh("ravel", (m,), arr.kind, nan=arr.cell.nan is not None)
+            out.cell.read_only_model = True
+            return out
         raise Unsupported("ravel of a general 2-d array")
     if name == "astype":
         k = kind_of_dtype(args[0] if args else kwargs.get("dtype"))
@@ -477,6 +486,8 @@ def arr_method(R, E, arr, name, args, kwargs, node):
         return R.np_any(E, arr)
     if name == "all":
         return R.np_all(E, arr)
+    if name == "argsort":
+        return R.fns["numpy.argsort"](E, arr, *args, **kwargs)
     if name == "max":
         return R.np_max(E, arr, *args, **kwargs)
     if name == "min":
